@@ -248,6 +248,38 @@ def parseSOp (tok : String) : Option (Bool × SOp) :=
   | [who, "d", m] => (parseMat? m).map fun rows => (who = "B", .setData rows)
   | _ => none
 
+def parseDotStr (tok : String) : Str := strOfToks (tok.splitOn ".")
+
+def parseEdit (tok : String) : Option (Edit Float) :=
+  match tok.splitOn ":" with
+  | ["i", idx, w] => match idx.toNat?, w.toNat? with
+    | some idx, some w => some (.item idx w)
+    | _, _ => none
+  | ["f", w] => w.toNat?.map .fill
+  | ["d", m] => (parseMat? m).map .data
+  | ["n", str] => some (.name (parseDotStr str))
+  | ["c", str] => some (.comment (parseDotStr str))
+  | ["g", x, y, c] => match floatTok? x, floatTok? y, floatTok? c with
+    | some x, some y, some c => some (.georef x y c)
+    | _, _, _ => none
+  | ["v", w] => w.toNat?.map .nodata
+  | _ => none
+
+/-- three handles: the original (0), its clone (1), the clone of the clone (2) -/
+def runStore3 (s : Store) (hs : List Handle) : List (Nat × SOp) → Store × List Handle
+  | [] => (s, hs)
+  | (k, op) :: ops =>
+    match hs[k]? with
+    | none => (s, hs)
+    | some h => let (s', h') := op.apply s h; runStore3 s' (hs.set k h') ops
+
+def parseSOp3 (tok : String) : Option (Nat × SOp) :=
+  match parseSOp tok with
+  | none => none
+  | some (_, op) =>
+    let who := (tok.splitOn ":").headD ""
+    some ((if who = "A" then 0 else if who = "B" then 1 else 2), op)
+
 /-- run a sequence of operations addressed to the original (A) or to its clone (B) -/
 def runStore (s : Store) (a b : Handle) : List (Bool × SOp) → Store × Handle × Handle
   | [] => (s, a, b)
@@ -303,6 +335,27 @@ def handle (toks : List String) : String :=
       let (s, a', b') := runStore s1 a b ops
       s!"{fmtMat (s.read a')} {fmtMat (s.read b')}"
     | _, _, _, _, _, _ => "bad-op"
+  | "savebo" :: bo :: g =>
+    match parseGrid g with
+    | none => "bad-op"
+    | some g => match writeHeaderBO ioFloat (if bo = "M" then .big else .little) g with
+      | .ok h => s!"ok {fmtStr h} {fmtHexBytes ((g.data.flatten.flatMap (encode (if bo = "M" then .big else .little) g.dtype.bytes)))}"
+      | .error e => "err " ++ errName e
+  | "edits" :: rest =>
+    -- 15 grid tokens, then the edits
+    match parseGrid (rest.take 15), allSome ((rest.drop 15).map parseEdit) with
+    | some g, some es => replyGrid (applyEdits g es)
+    | _, _ => "bad-op"
+  | "store3" :: data :: ops =>
+    match parseMat? data, allSome (ops.map parseSOp3) with
+    | some rows, some ops =>
+      let s0 : Store := [rows]
+      let a : Handle := ⟨0⟩
+      let (s1, b) := Store.clone s0 a
+      let (s2, c) := Store.clone s1 b
+      let (s, hs) := runStore3 s2 [a, b, c] ops
+      " ".intercalate (hs.map fun h => fmtMat (s.read h))
+    | _, _ => "bad-op"
   | "clip" :: x0 :: y0 :: x1 :: y1 :: g =>
     match parseGrid g, floatTok? x0, floatTok? y0, floatTok? x1, floatTok? y1 with
     | some g, some x0, some y0, some x1, some y1 => replyGrid (clip ioFloat g x0 y0 x1 y1)
